@@ -444,6 +444,11 @@ def ugrid_encoding(draw, supply=None, coords_as=None, allow_transpose=True, dtyp
         # the face tables may be wider than the largest face (all-triangle mesh in a table
         # four columns wide): the surplus column holds only fill
         "pad_columns": draw(st.sampled_from([0, 0, 0, 1])),
+        # the global Conventions attribute lists UGRID alone or next to CF, separated by a
+        # blank, a comma (both CF-legal) or a slash
+        "conventions": draw(st.sampled_from(["UGRID-1.0", "UGRID-1.0", "UGRID", "CF-1.6 UGRID-1.0",
+                                             "CF-1.6, UGRID-1.0", "CF-1.6,UGRID-1.0",
+                                             "CF-1.6/UGRID-1.0", "UGRID-1.0 Deltares-0.10"])),
     }
 
 
@@ -466,6 +471,28 @@ def ugrid_geom(draw, mesh=None, enc=None, **mesh_kwargs):
             e["edge_coords"] = True
     return {"nodes": m["nodes"], "faces": m["faces"], "invalid": list(m.get("invalid", [])),
             "edges": draw(edge_numbering(m["faces"])), "enc": e}
+
+
+def shift_geometry(g, dx=0.0, dy=0.0):
+    """Move every coordinate of a geometry spec by (dx, dy) - exact for the dyadic coordinates
+    used here.  Returns the same dict."""
+    def move(item):
+        if item is None:
+            return None
+        if len(item) == 2 and all(isinstance(v, (int, float)) for v in item):
+            return [item[0] + dx, item[1] + dy]
+        return [move(p) for p in item]
+    if g.get("nodes") is not None:
+        g["nodes"] = move(g["nodes"])
+    if g.get("lon") is not None:
+        g["lon"] = [v + dx for v in g["lon"]]
+        if g.get("lon_bounds") is not None:
+            g["lon_bounds"] = [[a + dx, b + dx] for a, b in g["lon_bounds"]]
+    if g.get("lat") is not None:
+        g["lat"] = [v + dy for v in g["lat"]]
+        if g.get("lat_bounds") is not None:
+            g["lat_bounds"] = [[a + dy, b + dy] for a, b in g["lat_bounds"]]
+    return g
 
 
 # ---- variables
@@ -545,7 +572,8 @@ def geometry(draw, conv, **kw):
     if conv == "ugrid":
         return draw(ugrid_geom(**{k: v for k, v in kw.items()
                                   if k in ("mesh", "enc", "max_j", "max_i", "allow_delete",
-                                           "allow_merge", "jitter", "min_faces", "allow_bowtie", "allow_overlap")}))
+                                           "allow_merge", "jitter", "min_faces", "allow_bowtie", "allow_overlap",
+                                           "unit_exps")}))
     raise ValueError(conv)
 
 
